@@ -267,6 +267,12 @@ func (s *HS) internY(y string) int64 {
 		x := s.secrets[s.order[s.ySeen]]
 		s.yIdx[Yhex(x.secret)] = x
 	}
+	// the state belongs to the point, however it is spelled (upper case, uncompressed): one handle per point
+	if b, err := hex.DecodeString(y); err == nil {
+		if pk, err := secp256k1.ParsePubKey(b); err == nil {
+			y = hex.EncodeToString(pk.SerializeCompressed())
+		}
+	}
 	if x, ok := s.yIdx[y]; ok {
 		return x.h
 	}
@@ -470,12 +476,20 @@ func (s *HS) abstract(route int, body []byte, kind int) *absReq {
 		ab.op = L(A(7), A(ab.quote), insS(ab.ins))
 	case rtCheck:
 		var ys []S
+		badY := false
 		for _, x := range r.arr(root.get("Ys")) {
+			if !isPointHex(r.str(x)) {
+				badY = true
+			}
 			h := s.internY(r.str(x))
 			ab.ys = append(ab.ys, h)
 			ys = append(ys, A(h))
 		}
 		ab.op = L(A(8), LL(ys))
+		if badY {
+			// a Y that is not a point is answered like a field of the wrong type: 400, code 10000, a text of its own
+			r.typeErr = true
+		}
 	case rtRestore:
 		var bsS []S
 		for _, x := range r.arr(root.get("outputs")) {
